@@ -13,13 +13,17 @@ inside a `Goal True ... Qed`, so one failing goal does not stop the file and eve
 Known finding C01-nmi-noise: when exactly one annotation has a single class the NMI denominator is the 1e-10 clamp and the float
 result is rounding noise of MI times 1e10 (~1e-6; exact value 0).  For those cases only -- and only when Coq itself computes
 that the clamp is active (st_nmi_clamped = true) -- the NMI goal is stated with tolerance 1/10^4; all others use 1/10^9.
-beta > 0 only (for beta = 0 util.f_measure divides 0 by 0 when the recall is 0)."""
+beta > 0 only (for beta = 0 util.f_measure divides 0 by 0 when the recall is 0).
+
+AMI (mutual_information[1]) is tied to Proofs/SegmentAMI.ami with tolerance 1/10^7 (tactic seg_ami of Proofs/SegmentAMINum.v).  Known
+finding C01-ami-nan: when both labellings are all-singletons the exact denominator max(H) - EMI is 0 and the float is nan or
+noise/noise; for those cases the goal is instead st_ami_den0 (Coq proves that the exact denominator is 0) and the float is unconstrained."""
 import math
 import re
 from fractions import Fraction
 from lib import core
 
-TAGS = ['tab', 'mi', 'nmi', 'over', 'under', 'f', 'vp', 'vr', 'vf']
+TAGS = ['tab', 'mi', 'nmi', 'ami', 'over', 'under', 'f', 'vp', 'vr', 'vf']
 POOL = ['a', 'b', 'c', 'verse', 'chorus', 'x', 'bridge', 'Z', 'q1']
 BETAS = [(1, 1), (1, 1), (1, 1), (1, 2), (2, 1), (1, 4)]
 
@@ -62,9 +66,9 @@ def _frac(x):
 
 class U(core.Unit):
     name = 'seg_entropy_num'
-    requires = ['ME.Proofs.SegmentEntropyNum']
+    requires = ['ME.Proofs.SegmentEntropyNum', 'ME.Proofs.SegmentAMINum']
     mirrors = [('mir_eval/segment.py', f) for f in ['mutual_information', 'nce', 'vmeasure', '_contingency_matrix', '_mutual_info_score', '_entropy',
-                                                   '_normalized_mutual_info_score']] + [('mir_eval/util.py', 'f_measure')]
+                                                   '_normalized_mutual_info_score', '_adjusted_mutual_info_score']] + [('mir_eval/util.py', 'f_measure')]
     counts = {'quick': 44, 'thorough': 580}
     shard = 16
     coq_timeout = 900
@@ -162,23 +166,23 @@ class U(core.Unit):
             return {'error': [t1, str(mi)[:80], t2, str(nce)[:80], t3, str(v)[:80]], 'yr': yr, 'ye': ye, 'tab': [[int(x) for x in r] for r in tab]}
         R, C = len(set(yr)), len(set(ye))
         clamped = (R == 1) != (C == 1)
-        return {'yr': yr, 'ye': ye, 'tab': [[int(x) for x in r] for r in tab], 'clamped': clamped,
-                'mi': _frac(mi[0]), 'nmi': _frac(mi[2]), 'nce': [_frac(x) for x in nce], 'v': [_frac(x) for x in v]}
+        return {'yr': yr, 'ye': ye, 'tab': [[int(x) for x in r] for r in tab], 'clamped': clamped, 'ami_den0': R == C == len(yr) >= 2,
+                'mi': _frac(mi[0]), 'nmi': _frac(mi[2]), 'ami': _frac(mi[1]), 'ami_repr': repr(float(mi[1])), 'nce': [_frac(x) for x in nce], 'v': [_frac(x) for x in v]}
 
     # ---- Coq side ---------------------------------------------------------------------------------------------
     def write_shard(self, pairs):
         nl = lambda l: '[' + ';'.join(str(int(x)) for x in l) + ']%nat'
         L = ['From Coq Require Import List Arith ZArith Reals.',
-             'From ME Require Import Model.SegmentCluster Proofs.SegmentEntropy Proofs.SegmentEntropyNum.',
+             'From ME Require Import Model.SegmentCluster Proofs.SegmentEntropy Proofs.SegmentEntropyNum Proofs.SegmentAMI Proofs.SegmentAMINum.',
              'Import ListNotations.', 'Local Open Scope R_scope.', '']
 
         def q(fr):
             return '(IZR (%s) / IZR %s)' % (fr[0], fr[1])
 
-        def chk(k, tag, prop):
+        def chk(k, tag, prop, tac='seg_num'):
             if prop is None:            # a non-finite or missing output cannot be within 1e-9 of a real number
                 return '  idtac "CASE %d %s BAD".' % (k, tag)
-            return '  first [ assert (%s) by seg_num; idtac "CASE %d %s OK" | idtac "CASE %d %s BAD" ].' % (prop, k, tag, k, tag)
+            return '  first [ assert (%s) by %s; idtac "CASE %d %s OK" | idtac "CASE %d %s BAD" ].' % (prop, tac, k, tag, k, tag)
 
         for k, (c, o) in enumerate(pairs):
             L.append('Definition yr_%d := %s.' % (k, nl(o['yr'])))
@@ -197,6 +201,10 @@ class U(core.Unit):
                     L.append(chk(k, 'nmi', o['nmi'] and 'st_nmi_clamped %s = true /\\ st_nmi %s (1 / 10 ^ 4) %s' % (y, y, q(o['nmi']))))
                 else:
                     L.append(chk(k, 'nmi', o['nmi'] and 'st_nmi %s %s %s' % (y, tol, q(o['nmi']))))
+                if o['ami_den0']:        # both labellings all singletons: Coq certifies that the exact denominator max(H) - EMI is 0;
+                    L.append(chk(k, 'ami', 'st_ami_den0 %s' % y, 'seg_ami'))      # the float (nan, or noise/noise) is not constrained
+                else:
+                    L.append(chk(k, 'ami', o['ami'] and 'st_ami %s (1 / 10 ^ 7) %s' % (y, q(o['ami'])), 'seg_ami'))
                 for tag, st, x in (('over', 'st_over %s %d %d false', o['nce'][0]), ('under', 'st_under %s %d %d false', o['nce'][1]),
                                    ('f', 'st_f %s %d %d false', o['nce'][2]), ('vp', 'st_vp %s %d %d', o['v'][0]),
                                    ('vr', 'st_vr %s %d %d', o['v'][1]), ('vf', 'st_vf %s %d %d', o['v'][2])):
@@ -248,6 +256,8 @@ class U(core.Unit):
                 continue
             if o['clamped']:
                 inc('nmi_clamped(tol 1e-4)')
+            if o['ami_den0']:
+                inc('ami_denominator_exactly_0 (float %s)' % o['ami_repr'])
             if any(0 in r for r in o['tab']):
                 inc('zero_cell')
             inc('beta=%d/%d' % tuple(c['beta']))
